@@ -2,7 +2,7 @@
 import itertools
 
 from ..core.choice_rng import ChoiceRng
-from ..core.explorer import explore, Chooser
+from ..core.explorer import NOT_REPRODUCIBLE, explore, Chooser
 from ..core.runner import Partial
 
 LEVEL = "exploration"
@@ -330,7 +330,7 @@ def task(args):
                     except Exception as e:
                         return f"output_malformed:{type(e).__name__}", repr(e)
 
-                for ch, (kind, info) in explore(guarded):
+                for ch, (kind, info) in explore(guarded, diverged=lambda msg: (NOT_REPRODUCIBLE, msg)):
                     p.evaluations += 1
                     if kind is not None:
                         p.violation(f"C11:{kind}|shapes={'differ' if cfg[2].startswith('differ') else 'equal'}{'|soft_labels' if len(cfg) > 5 else ''}|p={cfg[3]}"
